@@ -38,21 +38,41 @@ func main() {
 	fams := triex.Families(b)
 	global := triex.NewCollector()
 	tot := &triex.Totals{}
+	finish := func() {
+		global.Flush(r)
+		r.Cov("text_cases", tot.Extra[xTextCases])
+		r.Cov("key_cases", tot.Extra[xKeyCases])
+		r.Cov("text_cases_not_valid_utf8", tot.Extra[xInvalidTexts])
+		r.Assume(assumptions...)
+		r.Finish(rule)
+	}
+	triex.Watch(func(reason string, v *triex.Visit, in *string) {
+		entry, kind, input := "Insert+BuildFailureLinks", "text", ""
+		if in != nil {
+			entry, input = "Match/FindAll/PrefixSearch/FuzzySearch", *in
+		}
+		r.Violation(entry+"|no-termination|"+v.Oracle.KeyClass(input),
+			fmt.Sprintf("%s on input %q %s", entry, input, reason), v.Case(kind, input, nil),
+			"func TestReplay(t *testing.T) {\n"+triex.GoSetup(v.Set, v.Hist)+fmt.Sprintf("\tin := %q\n\ttr.Match(in); tr.FindAll(in); tr.PrefixSearch(in); tr.FuzzySearch(in)\n}", input))
+		r.Incomplete("aborted by the watchdog: " + reason)
+		finish()
+	})
 	for i, f := range fams {
 		f.Run(r, i, global, tot, visit)
 		sample(r, f)
 	}
-	global.Flush(r)
-	r.Cov("text_cases", tot.Extra[xTextCases])
-	r.Cov("key_cases", tot.Extra[xKeyCases])
-	r.Cov("text_cases_not_valid_utf8", tot.Extra[xInvalidTexts])
-	r.Assume("small-scope: bounds per family are listed in coverage.sections; outside: longer patterns, larger pattern sets, longer texts",
-		"patterns and keys are valid UTF-8; only texts are arbitrary byte strings",
-		"on text that is not valid UTF-8 only soundness (no panic, no match that is not a byte-for-byte occurrence) is demanded",
-		"FuzzySearch is checked for soundness only (results are inserted patterns)",
-		"a case is one (family, pattern set, insertion history, text) with Match+FindAll, or one (family, pattern set, insertion history, key) with PrefixSearch+FuzzySearch")
-	r.Finish("every (pattern set, history, text) and (pattern set, history, key) of each family is enumerated once (no sampling); non-trivial = the text contains >= 1 occurrence of a non-empty inserted pattern, resp. >= 1 inserted pattern starts with the key")
+	finish()
 }
+
+var assumptions = []string{
+	"small-scope: bounds per family are listed in coverage.sections; outside: longer patterns, larger pattern sets, longer texts",
+	"patterns and keys are valid UTF-8; only texts are arbitrary byte strings",
+	"on text that is not valid UTF-8 only soundness (no panic, no match that is not a byte-for-byte occurrence) is demanded",
+	"FuzzySearch is checked for soundness only (results are inserted patterns)",
+	"a case is one (family, pattern set, insertion history, text) with Match+FindAll, or one (family, pattern set, insertion history, key) with PrefixSearch+FuzzySearch",
+}
+
+const rule = "every (pattern set, history, text) and (pattern set, history, key) of each family is enumerated once (no sampling); non-trivial = the text contains >= 1 occurrence of a non-empty inserted pattern, resp. >= 1 inserted pattern starts with the key"
 
 func sample(r *common.Run, f *triex.Family) {
 	if len(f.Sets) == 0 || len(f.Texts) == 0 {
@@ -100,6 +120,7 @@ func visit(sh *triex.Shard, v *triex.Visit) {
 	for ti := range v.Fam.Texts {
 		t := &v.Fam.Texts[ti]
 		text := t.S
+		sh.At(&t.S)
 		sh.Ev++
 		sh.Extra[xTextCases]++
 		if !t.Valid {
@@ -190,7 +211,8 @@ func visit(sh *triex.Shard, v *triex.Visit) {
 		}
 	}
 
-	for _, key := range v.Fam.Keys {
+	for ki, key := range v.Fam.Keys {
+		sh.At(&v.Fam.Keys[ki])
 		sh.Ev++
 		sh.Extra[xKeyCases]++
 		exp := o.WithPrefix(key)
